@@ -147,15 +147,26 @@ def check_iterbudget(facts):
         return r
     hb = facts.body(hf)
     from .lbseq import natural_loops as _nl
-    loops = [(h, ns) for h, ns in _nl(hb).items()
-             if any(x in ns and (t.get("callee") or "").split("::")[-1] == "matches" for x, t in hb.iter_calls())]
+    def matcher_loops(body_):
+        return [(h, ns) for h, ns in _nl(body_).items()
+                if any(x in ns and (t.get("callee") or "").split("::")[-1] == "matches" for x, t in body_.iter_calls())]
+    loops = matcher_loops(hb)
     hdom = hb.dom()
     key = "%s returns (position after min iterations, position after all)" % hf
-    if len(loops) != 2:
-        r.fail(key, "expected two loops that run the single-character matcher (mandatory and optional iterations), found %d" % len(loops), facts.loc(hf))
-        return r
+    # the optional phase may be a second loop, or a call of a local helper that contains such a loop (compute_max_pos)
+    helper_calls = [bb for bb, t in hb.iter_calls() if facts.has_body(t.get("callee") or "") and (t.get("callee") or "") != hf
+                    and matcher_loops(facts.body(t.get("callee")))]
     loops.sort(key=lambda x: len(hdom[x[0]]))
-    (h1, n1), (h2, n2) = loops
+    if not loops or len(loops) + len(helper_calls) != 2:
+        r.fail(key, "expected a loop over the mandatory iterations followed by the optional ones (a second loop, or a call of a helper that "
+                    "loops), found %d loop(s) and %d helper call(s) that run the single-character matcher" % (len(loops), len(helper_calls)), facts.loc(hf))
+        return r
+    h1, n1 = loops[0]
+    if len(loops) == 2:
+        h2, n2 = loops[1]
+        p2 = h2
+    else:
+        h2, n2, p2 = None, set(), helper_calls[0]
     tup = None
     for bi, i, st in hb.iter_stmts():
         if st["k"] == "assign" and st["rv"]["k"] == "agg" and st["rv"].get("ak") == "tuple" and len(st["rv"].get("ops") or []) == 2:
@@ -170,6 +181,8 @@ def check_iterbudget(facts):
             l = op["pl"]["l"]
             for _ in range(4):
                 d = hb.single_def(l)
+                if d and d[2] == "call":
+                    return d[0]
                 if not d or d[2] != "assign" or d[3]["rv"]["k"] != "use" or d[3]["rv"]["op"].get("k") not in ("copy", "move"):
                     return None
                 src = d[3]["rv"]["op"]["pl"]["l"]
@@ -178,11 +191,14 @@ def check_iterbudget(facts):
                 l = src
             return None
         b1, b2 = def_block(tup["rv"]["ops"][0]), def_block(tup["rv"]["ops"][1])
-        if b1 is None or not (h1 in hdom[b1] and b1 not in n1 and (b1 == h2 or b1 in hdom[h2])):
+        if b1 is None or not (h1 in hdom[b1] and b1 not in n1 and (b1 == p2 or b1 in hdom[p2])):
             probs.append("the first component (the minimum position, the floor for giving characters back) is not read between the loop "
-                         "over the mandatory iterations and the loop over the optional ones")
-        if b2 is None or not (h2 in hdom[b2] and b2 not in n2):
-            probs.append("the second component (the maximum position) is not read after the loop over the optional iterations")
+                         "over the mandatory iterations and the optional ones")
+        if h2 is not None:
+            if b2 is None or not (h2 in hdom[b2] and b2 not in n2):
+                probs.append("the second component (the maximum position) is not read after the loop over the optional iterations")
+        elif b2 != p2:
+            probs.append("the second component (the maximum position) is not the result of the helper that runs the optional iterations")
     if probs:
         r.fail(key, "; ".join(probs) + " (line %s): a greedy loop gives back characters below its minimum, a lazy one starts with zero "
                                       "iterations (`^\\w{6}\\d` matches \"abc123\")" % (tup["line"] if tup else "?"), facts.loc(hf))
@@ -1489,9 +1505,13 @@ def check_passes(facts):
                              "optimizer::run_pass, anywhere, is listed in tables/optimizer_passes.json with the rules that decide its structural "
                              "conditions, and PassAction::Replace / Remove values are produced only inside those passes. A rewrite has to preserve "
                              "captures as well as matches — `x?` is not `(?:x|)`: the loop rejects an empty iteration and resets the groups inside, "
-                             "the alternation keeps the capture — so a new pass is reported until it has been reviewed")
+                             "the alternation keeps the capture — so a new pass is reported until it has been reviewed. The same for the rewrites of a reviewed "
+                             "pass: what it stores over the node it was handed (`*n = Node::V{..}` built on the spot, per pass in the table) and "
+                             "which actions it returns; a child moved over its parent, or a Replace from a pass that never replaced, is new")
     tab = _j.load(open(_os.path.join(core.VERIF, "tables", "optimizer_passes.json")))
     tab.pop("_comment", None)
+    rewrites = tab.pop("_rewrites", {})
+    rewrites.pop("_comment", None)
     seen = set()
     n = 0
     for fn in sorted(facts.body_names()):
@@ -1540,10 +1560,77 @@ def check_passes(facts):
         else:
             r.fail(key, "a node replacement / removal is produced (line %s) outside the reviewed passes" % makes[0]["line"], facts.loc(fn, makes[0]["line"]))
     r.floor("functions_producing_replacements", np_, 4)
+    # the rewrites themselves: what a pass stores over the node it was handed, and which actions it returns
+    nw = 0
+    kc = {}
+    for fn in sorted(facts.body_names()):
+        base = re.sub(r"::\{closure#\d+\}", "", fn)
+        owner = base if base in tab else facts.owner_of(base)
+        if owner not in tab or "::tests::" in fn:
+            continue
+        spec = rewrites.get(owner, {"writes": [], "actions": []})
+        b = facts.body(fn)
+        node_params = [l for l in range(1, b.argc + 1) if b.local_ty(l).replace(" ", "") == "&mutir::Node"]
+        for bi, i, st in b.iter_stmts():
+            if st["k"] != "assign":
+                continue
+            if st["pl"]["p"] == ["*"] and st["pl"]["l"] in node_params:
+                nw += 1
+                rv = st["rv"]
+                var = None
+                if rv["k"] == "agg":
+                    var = str(rv.get("variant"))
+                elif rv["k"] == "use" and rv["op"].get("k") in ("copy", "move") and not rv["op"]["pl"]["p"]:
+                    d = b.single_def(rv["op"]["pl"]["l"])
+                    if d and d[2] == "assign" and d[3]["rv"]["k"] == "agg" and str(d[3]["rv"].get("adt", "")).endswith("ir::Node"):
+                        # a local that was only ever the freshly built node (not later swapped with something else)
+                        l_ = rv["op"]["pl"]["l"]
+                        swapped = any((t.get("callee") or "").split("::")[-1] in ("swap", "replace", "take") and any(
+                            a.get("k") in ("copy", "move") and b.root_of(a["pl"]["l"])[0] == l_ for a in t["args"]) for _, t in b.iter_calls())
+                        var = None if swapped else str(d[3]["rv"].get("variant"))
+                key = "%s overwrites its node with %s" % (owner, var or "a node taken from elsewhere")
+                if var is not None and var in spec.get("writes", []):
+                    r.ok(key, "reviewed rewrite")
+                else:
+                    r.fail(key, "the pass %s stores %s over the node it was handed (line %s): not one of its reviewed rewrites %s — e.g. "
+                                "replacing `(?:x*?)*` by its inner loop keeps the inner quantifier's greediness and drops the outer one's" % (
+                                    owner.split("::")[-1], ("Node::" + var) if var else "a node moved from elsewhere (a child)", st["line"],
+                                    spec.get("writes", [])), facts.loc(fn, st["line"]))
+            if st["rv"]["k"] == "agg" and str(st["rv"].get("adt", "")).endswith("PassAction") and str(st["rv"].get("variant")) in ("Replace", "Remove"):
+                v = str(st["rv"].get("variant"))
+                kc[(owner, v)] = kc.get((owner, v), 0) + 1
+                key = "%s returns PassAction::%s #%d" % (owner, v, kc[(owner, v)])
+                carried = None
+                if v == "Replace" and st["rv"].get("ops"):
+                    op_ = st["rv"]["ops"][0]
+                    carried = "moved"
+                    if op_.get("k") in ("copy", "move") and not op_["pl"]["p"]:
+                        d_ = b.single_def(op_["pl"]["l"])
+                        if d_ and d_[2] == "assign" and d_[3]["rv"]["k"] == "agg" and str(d_[3]["rv"].get("adt", "")).endswith("ir::Node"):
+                            l_ = op_["pl"]["l"]
+                            swapped = any((t.get("callee") or "").split("::")[-1] in ("swap", "replace", "take") and any(
+                                a.get("k") in ("copy", "move") and b.root_of(a["pl"]["l"])[0] == l_ for a in t["args"]) for _, t in b.iter_calls())
+                            carried = "moved" if swapped else str(d_[3]["rv"].get("variant"))
+                        elif d_ and d_[2] == "call":
+                            carried = (d_[3].get("callee") or "?").split("::")[-1]
+                if v in spec.get("actions", []) and carried is not None and carried not in spec.get("replaces", []):
+                    r.fail(key, "the pass %s replaces a node by `%s` (line %s), which is not one of its reviewed replacements %s: e.g. a "
+                                "one-character node rewritten into a two-node Cat after single-character loops were formed makes the loop "
+                                "iterate over half a character" % (owner.split("::")[-1], carried, st["line"], spec.get("replaces", [])),
+                           facts.loc(fn, st["line"]))
+                elif v in spec.get("actions", []):
+                    r.ok(key, "reviewed")
+                else:
+                    r.fail(key, "the pass %s now answers PassAction::%s (line %s), which it never did: a new rewrite that has had no review" % (
+                        owner.split("::")[-1], v, st["line"]), facts.loc(fn, st["line"]))
+    r.floor("whole_node_stores", nw, 2)
     return r
 
 
 # ---- ITERREL --------------------------------------------------------------------------------
+
+ITER_REVIEWED = {"next", "next_back", "size_hint"}
+
 
 def check_iterrel(facts):
     r = RuleResult("ITERREL", "the crate's iterators (api::Groups, api::NamedGroups, exec::Matches) implement `next`; any other Iterator method an "
@@ -1551,7 +1638,8 @@ def check_iterrel(facts):
                               "iterator. Decided structurally: a store such a method makes to a cursor field (a field of self that `next` "
                               "stores to) computes the new value from the field's old value — a relative move. `self.idx = n` in `nth` is "
                               "right only on a fresh iterator: after `g.next()`, `g.nth(0)` yields group 0 again, and groups() disagrees with "
-                              "group(i)")
+                              "group(i). The set of overridden methods is itself reviewed (next, next_back, size_hint): any other override "
+                              "is reported until it has been read against the default")
     impls = {}
     for fn in facts.body_names():
         m = re.match(r"^<(.+) as std::iter::(?:traits::\w+::)?(Iterator|DoubleEndedIterator|ExactSizeIterator)>::(\w+)$", fn)
@@ -1608,6 +1696,12 @@ def check_iterrel(facts):
                 reads_field(b, o, f_) for o in (st["rv"]["a"], st["rv"]["b"]))) and not (
                     st["rv"]["k"] in ("use", "cast") and reads_field(b, st["rv"]["op"], f_))]
             key = "%s::%s moves the cursor relatively" % (impl, mname)
+            if mname not in ITER_REVIEWED:
+                r.fail("%s::%s is a reviewed override" % (impl, mname),
+                       "the iterator %s overrides `%s`, which std would otherwise derive from next(): nothing decides that the hand-written "
+                       "version agrees with the next()-based default (e.g. a `last()` that looks a name up in the first group carrying it, "
+                       "not the participating one) — reviewed overrides are %s" % (impl, mname, sorted(ITER_REVIEWED)), facts.loc(fn))
+                continue
             if bad:
                 r.fail(key, "`%s` of the iterator %s stores to the cursor field `%s` (line %s) a value that does not depend on the field's "
                             "old value: correct on a fresh iterator only — after next() the override disagrees with the next()-based default" % (
@@ -1733,6 +1827,275 @@ def check_mergedep(facts):
                 r.ok(key, "both bounds depend on %s" % ", ".join(b.local_name(l) or "_%d" % l for l in ivp))
                 r.sample({"function": fn, "line": st["line"]})
     r.floor("intervals_built_from_an_interval_parameter", n, 1)
+    # a union never shrinks an interval: in the add* functions a bound of an existing interval is only ever rewritten to a value that
+    # depends on its old value (max / min with it) — `prev.last = next.last` shrinks `prev` when `next` lies inside it
+    for fn in sorted(facts.body_names()):
+        if not fn.startswith("codepointset::CodePointSet::add") or "::tests::" in fn:
+            continue
+        b = facts.body(fn)
+        k = 0
+        for bi, i, st in b.iter_stmts():
+            if st["k"] != "assign" or not st["pl"]["p"]:
+                continue
+            fl = core.proj_fields(st["pl"])
+            if not fl or fl[-1] not in ("first", "last"):
+                continue
+            k += 1
+            key = "%s bound store #%d keeps the old bound in play" % (re.sub(r"::\{closure#\d+\}", "", fn), k)
+            base_root = b.root_of(st["pl"]["l"])[0]
+
+            def reads_old(op, depth=0, seen=None):
+                seen = seen if seen is not None else set()
+                if op.get("k") not in ("copy", "move") or depth > 10:
+                    return False
+                f2 = core.proj_fields(op["pl"])
+                if f2 and f2[-1] == fl[-1] and b.root_of(op["pl"]["l"])[0] == base_root:
+                    return True
+                l = op["pl"]["l"]
+                if l in seen:
+                    return False
+                seen.add(l)
+                for d in b.defs().get(l, []):
+                    ops = list(d[3]["args"]) if d[2] == "call" else [d[3]["rv"][x] for x in ("op", "a", "b") if isinstance(d[3]["rv"].get(x), dict)] + \
+                        list(d[3]["rv"].get("ops") or []) + ([{"k": "copy", "pl": d[3]["rv"]["pl"]}] if isinstance(d[3]["rv"].get("pl"), dict) else [])
+                    if any(reads_old(o, depth + 1, seen) for o in ops):
+                        return True
+                return False
+            rv = st["rv"]
+            ops = [rv[x] for x in ("op", "a", "b") if isinstance(rv.get(x), dict)]
+            if any(reads_old(o) for o in ops):
+                r.ok(key)
+            else:
+                r.fail(key, "`.%s` of an interval already in the set is overwritten (line %s) with a value that does not depend on its old "
+                            "value: when the other interval lies inside this one the interval shrinks and members drop out of the union "
+                            "(`[\\S\\d]` loses `a`)" % (fl[-1], st["line"]), facts.loc(fn, st["line"]))
+    return r
+
+
+# ---- MULBOUND -------------------------------------------------------------------------------
+
+def check_mulbound(facts):
+    r = RuleResult("MULBOUND", "numbers written in a pattern (quantifier bounds, `\\u{...}` digits, `$N`) are unbounded, so on the compile path and in "
+                               "the template scanner a plain `*` is only applied where it cannot overflow: (a) no multiplication of two "
+                               "non-constant values (two quantifier counts multiplied overflow usize; saturating / checked forms are calls and "
+                               "are fine); (b) a multiplication by a constant inside a loop — a digit accumulator `v = v * 16 + d` — has, in that "
+                               "same loop, a comparison of the accumulator with a constant whose one edge leaves the loop, so the value is "
+                               "bounded per iteration instead of after the last digit (`\\u{FFFFFFFFF}` overflows u32: a panic in debug builds, "
+                               "a wrapped code point in release)")
+    from .lbseq import natural_loops as _nl
+    MODS = ("parse::", "optimizer::", "emit::", "ir::", "startpredicate::", "literal::", "api::Regex::expand_replacement", "<ir::", "<parse::")
+    n = 0
+    for fn in sorted(facts.body_names()):
+        if "::tests::" in fn or not fn.startswith(MODS):
+            continue
+        b = facts.body(fn)
+        loops = None
+        k = 0
+        for bi, i, st in b.iter_stmts():
+            if st["k"] != "assign" or st["rv"]["k"] not in ("bin", "checked_bin") or not str(st["rv"]["op"]).startswith("Mul"):
+                continue
+            a_, c_ = st["rv"]["a"], st["rv"]["b"]
+            ca, cc = b.const_of_operand(a_), b.const_of_operand(c_)
+            if a_.get("k") == "const" or c_.get("k") == "const":
+                ca = ca if ca is not None else (0 if a_.get("k") == "const" else None)
+                cc = cc if cc is not None else (0 if c_.get("k") == "const" else None)
+            n += 1
+            k += 1
+            key = "%s multiplication #%d cannot overflow" % (re.sub(r"::\{closure#\d+\}", "", fn), k)
+            if ca is None and cc is None:
+                r.fail(key, "two values that both come from the pattern are multiplied with a plain `*` (line %s): quantifier bounds saturate "
+                            "at usize::MAX in the parser, so the product overflows — a panic while compiling in debug builds, a wrapped count "
+                            "(`(?:a{4294967296}){4294967296}` becomes `a{0}`) in release" % st["line"], facts.loc(fn, st["line"]))
+                continue
+            if ca is not None and cc is not None:
+                r.ok(key, "constant")
+                continue
+            loops = loops if loops is not None else _nl(b)
+            inl = [(len(ns), h, ns) for h, ns in loops.items() if bi in ns]
+            if not inl:
+                r.ok(key, "by a constant, outside any loop (a fixed number of digits)")
+                continue
+            _, h, ns = min(inl)
+            var = a_ if ca is None else c_
+            acc = b.root_of(var["pl"]["l"])[0]
+            # the accumulator: the local the product (plus a digit) is stored back into
+            accs = {acc}
+            for x in ns:
+                for st2 in b.blocks[x]["s"]:
+                    if st2["k"] == "assign" and st2["rv"]["k"] == "use" and st2["rv"]["op"].get("k") in ("copy", "move") and \
+                            st2["rv"]["op"]["pl"]["l"] in accs and not st2["pl"]["p"]:
+                        accs.add(st2["pl"]["l"])
+            succ = b.succ()
+            bounded = False
+            for x in ns:
+                t = b.blocks[x]["t"]
+                if t["k"] != "switch" or t["discr"].get("k") not in ("copy", "move"):
+                    continue
+                d = b.single_def(t["discr"]["pl"]["l"])
+                if not d or d[2] != "assign" or d[3]["rv"]["k"] != "bin" or d[3]["rv"]["op"] not in ("Lt", "Le", "Gt", "Ge"):
+                    continue
+                oa, ob = d[3]["rv"]["a"], d[3]["rv"]["b"]
+                for v_, c2 in ((oa, ob), (ob, oa)):
+                    if v_.get("k") in ("copy", "move") and (b.const_of_operand(c2) is not None or c2.get("k") == "const"):
+                        rt = b.root_of(v_["pl"]["l"])[0]
+                        # the compared value is the accumulator or derives from the product
+                        if rt in accs or rt == st["pl"]["l"] or _mb_derives(b, rt, st["pl"]["l"], accs, ns):
+                            if any(y not in ns for y in succ.get(x, [])) or any(ns.isdisjoint(b.reach_from(y) & {h}) for y in succ.get(x, [])):
+                                bounded = True
+            if bounded:
+                r.ok(key, "accumulator tested against a constant inside the loop")
+            else:
+                r.fail(key, "a value is multiplied by a constant on every iteration of a loop over characters of the pattern (line %s) and is "
+                            "not compared with a bound inside that loop: with enough digits it overflows before the check after the loop "
+                            "(`\\u{FFFFFFFFF}`: debug panic, release wraps to a valid code point)" % st["line"], facts.loc(fn, st["line"]))
+    r.floor("multiplications_on_the_compile_path", n, 5)
+    return r
+
+
+def _mb_derives(b, l, prod, accs, ns, depth=0):
+    if depth > 6:
+        return False
+    for bi, si, kind, pay in b.defs().get(l, []):
+        if kind != "assign" or bi not in ns:
+            continue
+        rv = pay["rv"]
+        ops = [rv[k] for k in ("op", "a", "b") if isinstance(rv.get(k), dict)]
+        for o in ops:
+            if o.get("k") in ("copy", "move"):
+                x = o["pl"]["l"]
+                if x == prod or x in accs or _mb_derives(b, x, prod, accs, ns, depth + 1):
+                    return True
+    return False
+
+
+# ---- COMPILESTATE ---------------------------------------------------------------------------
+
+def check_compilestate(facts):
+    import json as _j
+    import os as _os
+    r = RuleResult("COMPILESTATE", "the state of the compile pipeline and the facts it precomputes are exactly the reviewed ones "
+                                   "(tables/compile_state.json): fields of parse::Parser (they live across the whole pattern while `flags` "
+                                   "changes inside modifier groups), of emit::Emitter, of insn::CompiledRegex / ir::Regex, and the variants of "
+                                   "insn::StartPredicate (facts computed once that both executors act on for every haystack and every start "
+                                   "offset). A new one — a per-pattern cache filled under whatever flags were in force first, a 'required "
+                                   "literal' or minimum length searched only to the right of the cursor, an 'end anchored' bit — is reported "
+                                   "until it has an argument in the table")
+    tab = _j.load(open(_os.path.join(core.VERIF, "tables", "compile_state.json")))
+    tab.pop("_comment", None)
+    n = 0
+    for adt, entries in sorted(tab.items()):
+        optional = adt.startswith("?")
+        adt = adt.lstrip("?")
+        a = facts.adts.get(adt)
+        if not a:
+            if not optional:
+                r.error("%s not found" % adt)
+            continue
+        if len(a["variants"]) == 1:
+            cur = [f_["name"] for f_ in a["variants"][0]["fields"]]
+            what = "field"
+        else:
+            cur = [v.get("name") for v in a["variants"]]
+            what = "variant"
+        for c in cur:
+            n += 1
+            key = "%s %s %s" % (adt, what, c)
+            if c in entries:
+                r.ok(key, entries[c][:110])
+            else:
+                r.fail(key, "new %s `%s` of %s is not in the reviewed list: nothing says it stays right when flags change mid-pattern "
+                            "(Parser), or for every haystack, start offset and direction (CompiledRegex / StartPredicate) — e.g. a literal "
+                            "required by a lookbehind lies *before* the cursor" % (what, c, adt), "%s:%s" % (a.get("file"), a.get("line")))
+        r.sample({"type": adt, what + "s": cur})
+    r.floor("compile_state_entries", n, 25)
+    return r
+
+
+# ---- ICASEGUARD -----------------------------------------------------------------------------
+
+def check_icaseguard(facts):
+    from . import flagsrc
+    r = RuleResult("ICASEGUARD", "case closure is applied only under the `i` flag: in parse.rs every call of unicode::add_icase_code_points sits on "
+                                 "the true edge of a test whose value comes from an `icase` flag (self.flags.icase, a parameter or node field "
+                                 "named icase); and inside the parser's case-aware constructor a `Node::Char` that carries the raw code point "
+                                 "is built only on the false edge of that test (under `i` the node comes from expand_code_point's answer). A "
+                                 "closure applied under `v` alone makes case-sensitive `[\\p{Lu}]` match \"a\"; a shortcut past the expansion "
+                                 "under `i` makes a character that is only the *target* of a mapping (ß ← ẞ) case-sensitive")
+    n = 0
+
+    def icase_test_edges(fn, b):
+        """(switch block, true-edge target, false-edge target) of tests on an icase value"""
+        out = []
+        for bi in sorted(b.reachable()):
+            t = b.blocks[bi]["t"]
+            if t["k"] != "switch" or t.get("dty") != "bool" or t["discr"].get("k") not in ("copy", "move"):
+                continue
+            src = flagsrc.sources(facts, fn, b, t["discr"])
+            names = {x for x in src if x.startswith("flags.") or x.startswith("param:")}
+            l = t["discr"]["pl"]["l"]
+            d = b.single_def(l)
+            neg = False
+            if d and d[2] == "assign" and d[3]["rv"]["k"] == "un" and d[3]["rv"].get("op") == "Not":
+                neg = True
+            direct = core.proj_fields(t["discr"]["pl"])[-1:] == ["icase"] or (b.local_name(b.root_of(l)[0]) or "") == "icase"
+            if not (names and all(x in ("flags.icase", "param:icase") for x in names) or direct):
+                continue
+            if "other:Not" in src or "other:not" in src:
+                neg = True
+            f0 = [tg for v, tg in t["targets"] if v == 0]
+            tru, fls = (t["otherwise"], f0[0] if f0 else None)
+            if neg:
+                tru, fls = fls, tru
+            out.append((bi, tru, fls))
+        return out
+    for fn in sorted(facts.body_names()):
+        if not fn.startswith("parse::") or "::tests::" in fn:
+            continue
+        b = facts.body(fn)
+        calls = [(bb, t) for bb, t in b.iter_calls() if (t.get("callee") or "").endswith("unicode::add_icase_code_points")]
+        if not calls:
+            continue
+        dom = b.dom()
+        edges = icase_test_edges(fn, b)
+        k = 0
+        for bb, t in calls:
+            n += 1
+            k += 1
+            key = "%s case closure #%d is under the i flag" % (re.sub(r"::\{closure#\d+\}", "", fn), k)
+            if any(tru is not None and (tru == bb or tru in dom[bb]) for _, tru, _ in edges):
+                r.ok(key)
+            else:
+                r.fail(key, "add_icase_code_points is called (line %s) on a path that has not tested an `icase` flag: a case-sensitive regex "
+                            "gets its class closed under case folding (`[\\p{Lu}]` under `v` matches \"a\")" % t.get("line"), facts.loc(fn, t.get("line")))
+    r.floor("case_closure_calls", n, 4)
+    # the case-aware constructor
+    nc = 0
+    for fn in sorted(facts.body_names()):
+        if not fn.startswith("parse::") or "{closure" in fn:
+            continue
+        b = facts.body(fn)
+        if not any((t.get("callee") or "").endswith("unicode::expand_code_point") for _, t in b.iter_calls()):
+            continue
+        dom = b.dom()
+        edges = icase_test_edges(fn, b)
+        for bi, i, st in b.iter_stmts():
+            if st["k"] != "assign" or st["rv"]["k"] != "agg" or not str(st["rv"].get("adt", "")).endswith("ir::Node") or str(st["rv"].get("variant")) != "Char":
+                continue
+            op = (st["rv"].get("ops") or [{}])[0]
+            if op.get("k") not in ("copy", "move"):
+                continue
+            root = b.root_of(op["pl"]["l"])[0]
+            if not (1 <= root <= b.argc):
+                continue     # comes from the expansion's answer
+            nc += 1
+            key = "%s raw Node::Char #%d only without the i flag" % (fn, nc)
+            if any(fls is not None and (fls == bi or fls in dom[bi]) for _, _, fls in edges):
+                r.ok(key)
+            else:
+                r.fail(key, "a `Node::Char` carrying the raw code point is built (line %s) on a path where the `i` flag may be set, bypassing "
+                            "expand_code_point: a character that maps to itself but is the target of another character's mapping (ß ← ẞ, "
+                            "Cherokee capitals) becomes case-sensitive" % st["line"], facts.loc(fn, st["line"]))
+    r.floor("raw_char_nodes_in_the_case_aware_constructor", nc, 1)
     return r
 
 
